@@ -5,6 +5,7 @@ CONSTANTS
   DVals = {}
   CVals = {}
   UVals = {}
+  PrefixLen = 0
   MaxHosts = 0
   MaxSel = 0
   Defects = {}
